@@ -1,6 +1,6 @@
 #!/bin/bash
 # runs every thorough check from a snapshot directory (vp run): builds its own binary, writes evidence/out below $PWD
-export GOFLAGS=-mod=mod GOPROXY=off GOSUMDB=off GOTOOLCHAIN=local GOSYM_ROOT=$PWD
+export GOFLAGS=-mod=mod GOPROXY=off GOSUMDB=off GOTOOLCHAIN=local GOSYM_ROOT=$PWD GOSYM_REPO=${VP_RUN_REPO:-/repo}
 (cd engine && go build -o ../bin/gosym .) || exit 2
 for i in ${@:-C04 C13 C16 C18 C11 C05 C10 C03 C15 C19 C06 C12 C20 C02 C09 C01 C08 C17 C14 C07}; do
   /usr/bin/time -f "$i wall=%es" ./bin/gosym check $i --tier thorough 2>&1 | grep -E "^==|paths=|INCONCL|VIOLATION|UNCONF|VACUOUS|wall=" | cut -c1-250
